@@ -1,14 +1,36 @@
-"""Base programs of the C05 rule x context table (templates with typed holes).
+"""C05 - ill-formed programs are never turned into a runnable artifact (DESIGN §4 C05).
 
-Template syntax (plain text, one statement per line):
+E: a program that violates a static rule and for which `nanoc p -o t`, `nano_virt p --run` or
+   `nano_virt p --emit-nvm -o t.nvm` exits 0, prints no diagnostic, leaves a file at the -o path or lets the
+   program's first output line (a marker printed first thing in main) appear on stdout.
+O: exit status, diagnostic text of the tool (warnings and C-compiler lines removed), existence of the -o
+   target (removed before the run), the marker on stdout.
+W: a table of cells = rule x syntactic context x tool.  Every mutant is ill-formed BY CONSTRUCTION: base
+   programs are templates with typed holes; a catalogue entry is a fixed expression / statement that certainly
+   violates its rule wherever a slot of the stated type accepts it (mixed-type operands only, never
+   `(+ "a" "b")`).  Each cell is instantiated at several sites (different base program, slot, catalogue variant).
+   Controls: every base unmutated, and every statement a catalogue entry brings along, must be accepted, built
+   and run by all three tools (else the run is inconclusive).
+   Known findings are individual cells: key `cell|<rule>|<context>|<tool>|<outcome class>`.
+
+Outcome classes per run:  rejected | rejected-late-by-cc (nanoc: no diagnostic of its own, the C compiler's
+errors + 'C compilation failed'; exit non-zero, no file) | diagnosed-rejected-by-cc (own diagnostic, went on, cc
+failed) | diagnosed-but-built | silently-built | rejected-without-diagnostic | crashed-*.  For --run "built"
+means "executed".  Violations: diagnosed-but-built, silently-built, rejected-without-diagnostic,
+crashed-without-diagnostic.
+
+Template syntax of the base programs (plain text, one statement per line):
   <<ctx:T|default>>     an expression slot of static type T in syntactic context ctx; the unmutated program has
                         `default` there.  A hole line is always a complete statement line inside a block, so
                         statements can be inserted in front of it.
-  @@ blockctx imm=n:T,.. par=n:T,..
-                        (own line) a point where a statement may be inserted; imm = immutable locals in scope
-                        (declared above, same function), par = parameters of the enclosing function.
+  @@ blockctx ret=T imm=n:T,.. par=n:T,..
+                        (own line) a point where a statement may be inserted; ret = return type of the function,
+                        imm = immutable locals in scope (declared above), par = parameters of the function.
   @ret:shape@ <line>    a `return` line whose removal leaves a path without a return (shape names the path).
 Every base starts with PRELUDE (types, helpers) and its main prints MARKER first thing.
+
+Development: NLV_C05_DUMP=<file> writes one JSON line per mutant; NLV_C05_ALL=1 runs every candidate site of
+the hand-written bases (tools/c05_known.py turns such dumps into findings/C05/known.json).
 """
 
 MARKER = "C05-MARK-7f3a"
@@ -1384,7 +1406,10 @@ def run(ctx):
         dropped = []
         n_ctl = 0
         for name, b, mut, obs, native in pmap(do_control, list(enumerate(ctl))):
-            ok = (all(o.cls in ("silently-built",) and o.rc == 0 and not o.sig for o in obs) and obs[0].artifact and obs[2].artifact
+            # accepted = no diagnostic, exit 0 (a generated program may end with an exit status of its own under --run),
+            # both output files written, the marker printed by the VM and by the native binary
+            ok = (all(o.cls == "silently-built" and not o.sig for o in obs) and obs[0].rc == 0 and obs[2].rc == 0
+                  and (obs[1].rc == 0 or b.kind == "gen") and obs[0].artifact and obs[2].artifact
                   and obs[1].marker and native is not None and MARKER in native.text())
             n_ctl += 1
             if ok:
@@ -1522,6 +1547,9 @@ def run(ctx):
             "diagnostic_samples": diag_samples,
             "samples": samples,
             "inconclusive_runs": n_inconcl,
+            # nanoc runs the shadow tests (compile-time execution in its interpreter) after the type check and before
+            # transpiling: every rejection at stage shadow/transpile/cc happened AFTER code of the ill-formed program ran
+            "nanoc_rejections_after_shadow_execution": sum(v for k, v in stage_hist["nanoc"].items() if k in ("shadow", "transpile", "cc")),
         }
         assumptions = [
             "A mutant is ill-formed by construction: each catalogue entry is a fixed expression/statement whose rule violation does "
